@@ -11,7 +11,7 @@ from __future__ import annotations
 import numpy as np
 
 import porepy as pp
-from engines.history import Op, run_history
+from engines.history import Observer, Op, run_history
 from simkit.runner import Workload
 from simkit.trace import Trace, Violation
 
@@ -30,7 +30,7 @@ ASSUMPTIONS = [
     "subdomain/interface order is whatever mdg.subdomains()/interfaces() return (their sorting is C24's clause)",
     "values are read only for blocks written since their (re-)creation; stale data left by removed variables is not constrained",
 ]
-PROBES = ["zero_size_block", "create_after_remove", "same_name_two_creations", "remove_by_name", "remove_by_md_variable", "remove_by_variable",
+PROBES = ["observation_sparse", "observation_end", "zero_size_block", "create_after_remove", "same_name_two_creations", "remove_by_name", "remove_by_md_variable", "remove_by_variable",
           "interface_variable", "face_or_node_dofs", "grids_passed_out_of_order", "additive_write", "subset_set_get", "rejected_duplicate_name",
           "rejected_unknown_variable", "rejected_dof_out_of_range", "rejected_both_grid_kinds", "rejected_no_grids", "rejected_bad_dof_type",
           "layout_ge_6_blocks", "empty_system_after_removals", "rejected_remove_after_live_prefix", "caller_reuses_and_mutates_dof_info_dict"]
@@ -84,7 +84,11 @@ def run_history_c05(ch, tr: Trace) -> None:
     def label(b):
         return f"{b['name']}@{'sd' if isinstance(b['grid'], pp.Grid) else 'intf'}{grid_rank[b['grid']]}"
 
-    def check_layout(where):
+    obs = Observer(ch, tr)
+
+    def check_layout(where, force=False):
+        if not (force or obs.due()):
+            return
         blocks = expected_blocks()
         total = sum(b["size"] for b in blocks)
         if es.num_dofs() != total:
@@ -345,7 +349,8 @@ def run_history_c05(ch, tr: Trace) -> None:
         Op("projection", 2, op_query, enabled=lambda: bool(live)),
         Op("reject", 2, op_reject),
     ]
-    run_history(ch, tr, ops, 3, 22)
+    run_history(ch, tr, ops, 3, 22, diagnose=lambda w: check_layout(w, force=True))
+    check_layout("the end of the history", force=True)
     tr.emit("end", len(live))
 
 
